@@ -1,5 +1,7 @@
 import Revm.Model.Evm
 import Revm.Proofs.Evm
+import Revm.Proofs.EvmStepTable
+import Revm.Proofs.EvmHost
 /-! C01 — "For every pre-state, block environment, valid transaction and hardfork from Frontier to Prague, executing the
 transaction yields the same outcome class, the same gas used, the same return data and logs, and the same post-state as
 the Ethereum execution specification."
@@ -78,5 +80,97 @@ theorem result_class_sound (r : Interp.IResult) :
     (classOf r = some .success ↔ (r.isOk = true ∧ r ≠ .Continue)) ∧
     (classOf r = some .revert → r.isRevert = true) := by
   cases r <;> decide
+
+
+/-! ## `step_pure_agrees`: the interpreter step against the Yellow-Paper-style rules (`Spec/EvmRules.lean`)
+
+For ANY machine state (any code, pc, stack, memory, gas, environment, fork) whose next opcode belongs to the family,
+`Interp.step` is exactly the family's rule: the same stack / pc / gas effect or the same exceptional halt (not activated,
+out of gas, stack underflow, stack overflow) with the same machine state. `WF`: the gas meter holds a `u64`, the stack
+at most 1024 words `< 2^256`. -/
+
+open Revm.Model.Interp Revm.Spec.EvmRules
+
+/-- the 24 word operations ADD … SAR (without EXP) with their `Spec.Arith` meaning: unbounded arithmetic mod 2^256,
+two's complement for the signed ones (through the C03 theorems), static gas 3 / 5 / 8, activation fork -/
+theorem step_word_agrees (e : WordEntry) (he : e ∈ wordTable) (s : IState) (hcode : s.code[s.pc]? = some e.op)
+    (hwf : WF s) : step s = .pure (e.rule s) :=
+  Proofs.EvmStep.step_word_agrees e he s hcode hwf
+
+/-- the 19 environment reads (ADDRESS, ORIGIN, CALLER, CALLVALUE, CALLDATASIZE, CODESIZE, GASPRICE, RETURNDATASIZE,
+COINBASE, TIMESTAMP, NUMBER, DIFFICULTY / PREVRANDAO, GASLIMIT, CHAINID, BASEFEE, BLOBBASEFEE, PC, MSIZE, GAS) -/
+theorem step_env_agrees (e : EnvEntry) (he : e ∈ envTable) (s : IState) (hcode : s.code[s.pc]? = some e.op)
+    (hwf : WF s) : step s = .pure (e.rule s) :=
+  Proofs.EvmStep.step_env_agrees e he s hcode hwf
+
+/-- a state satisfying the hypotheses: `PUSH1 1 PUSH1 2 ADD` at the ADD -/
+example : ∃ s : IState, WF s ∧ s.code[s.pc]? = some 0x01 ∧ (⟨0x01, 3, 0, .bin Spec.Arith.add⟩ : WordEntry) ∈ wordTable :=
+  ⟨{ IState.init [0x60, 1, 0x60, 2, 0x01] [] 100000 false 17 0 0 0 {} with pc := 4, stack := [1, 2] },
+   ⟨by decide, by decide, by decide⟩, by decide, by simp [wordTable, GasCalc.VERYLOW, GasCalc.SpecId.FRONTIER]⟩
+
+theorem step_pop_agrees (s : IState) (hcode : s.code[s.pc]? = some 0x50) (hwf : WF s) :
+    step s = .pure (popRule s) := Proofs.EvmStep.step_pop s hcode hwf.gas
+
+theorem step_push0_agrees (s : IState) (hcode : s.code[s.pc]? = some 0x5f) (hwf : WF s) :
+    step s = .pure (push0Rule s) := Proofs.EvmStep.step_push0 s hcode hwf.gas
+
+theorem step_jumpdest_agrees (s : IState) (hcode : s.code[s.pc]? = some 0x5b) (hwf : WF s) :
+    step s = .pure (jumpdestRule s) := Proofs.EvmStep.step_jumpdest s hcode hwf.gas
+
+/-- DUP1 … DUP16 -/
+theorem step_dup_agrees (s : IState) (n : Fin 16) (hcode : s.code[s.pc]? = some (0x80 + n.val)) (hwf : WF s) :
+    step s = .pure (dupRule (n.val + 1) s) :=
+  Proofs.EvmStep.step_dup s _ n hcode (Proofs.EvmStep.decode_dup n) hwf.gas
+
+/-- SWAP1 … SWAP16 -/
+theorem step_swap_agrees (s : IState) (n : Fin 16) (hcode : s.code[s.pc]? = some (0x90 + n.val)) (hwf : WF s) :
+    step s = .pure (swapRule (n.val + 1) s) :=
+  Proofs.EvmStep.step_swap s _ n hcode (Proofs.EvmStep.decode_swap n) hwf.gas
+
+/-- PUSH1 … PUSH32: the immediate bytes, big-endian -/
+theorem step_push_agrees (s : IState) (n : Fin 32) (hcode : s.code[s.pc]? = some (0x60 + n.val)) (hwf : WF s) :
+    step s = .pure (pushRule (n.val + 1) s) :=
+  Proofs.EvmStep.step_push s _ n hcode (Proofs.EvmStep.decode_push n) hwf.gas hwf.depth
+
+/-! ## `host_agrees`: what the interpreter is told about the state is what the abstract state holds
+
+`Spec.JournalAbs.absAcct` is the observable content of the journaled state (C06): an address absent from the journal's
+map is the database's account, cold unless pre-warmed. The answers of the journal-backed host (`Evm.answer`, the model
+of `impl Host for Context`) for the state-reading instructions carry exactly the abstract values and cold flags, from
+which the interpreter computes results and gas (C14's formulas). -/
+
+open Revm.Spec.JournalAbs in
+/-- BALANCE / SELFBALANCE -/
+theorem host_balance_agrees (he : HostEnv) (w w' : World) (a : Nat) (resp : HostResp)
+    (h : answer he w (.balance a) = .ok (resp, w')) :
+    resp.word = (absAcct w.db w.js a).balance ∧ resp.isCold = !(absAcct w.db w.js a).warm ∧ resp.ok = true :=
+  Proofs.EvmHost.balance_agrees he w w' a resp h
+
+open Revm.Spec.JournalAbs in
+/-- SLOAD -/
+theorem host_sload_agrees (he : HostEnv) (w w' : World) (a k : Nat) (resp : HostResp)
+    (h : answer he w (.sload a k) = .ok (resp, w')) :
+    resp.word = ((absAcct w.db w.js a).slot k).present ∧ resp.isCold = !((absAcct w.db w.js a).slot k).warm :=
+  Proofs.EvmHost.sload_agrees he w w' a k resp h
+
+open Revm.Spec.JournalAbs in
+/-- SSTORE: the (original, present, new, cold) tuple behind EIP-2200 / 2929 / 3529 gas and refunds -/
+theorem host_sstore_agrees (he : HostEnv) (w w' : World) (a k v : Nat) (resp : HostResp)
+    (h : answer he w (.sstore a k v) = .ok (resp, w')) :
+    resp.original = ((absAcct w.db w.js a).slot k).orig ∧ resp.present = ((absAcct w.db w.js a).slot k).present ∧
+    resp.new = v ∧ resp.isCold = !((absAcct w.db w.js a).slot k).warm :=
+  Proofs.EvmHost.sstore_agrees he w w' a k v resp h
+
+/-- TLOAD -/
+theorem host_tload_agrees (he : HostEnv) (w w' : World) (a k : Nat) (resp : HostResp)
+    (h : answer he w (.tload a k) = .ok (resp, w')) : resp.word = Journal.tload w.js a k ∧ w' = w :=
+  Proofs.EvmHost.tload_agrees he w w' a k resp h
+
+/-- the host hypotheses are satisfiable: a balance query on a fresh journal over a one-account database -/
+example : ∃ r, answer { blockNumber := 1 }
+    { js := Journal.JState.new 17 (fun _ => false),
+      pre := [{ addr := 0xaa, balance := 7, nonce := 0, code := [], codeHash := Evm.KECCAK_EMPTY, storage := [] }] }
+    (.balance 0xaa) = .ok r :=
+  Proofs.Evm.exists_of_isOk (by decide +kernel)
 
 end Revm.Props.C01
